@@ -7,6 +7,7 @@ directly evaluated graph, including sharing), disjointness of two builds.
 """
 from __future__ import annotations
 
+import functools
 import gc
 import sys
 
@@ -35,7 +36,8 @@ ASSUMPTIONS = [
 ]
 MINIMUMS = {
     'quick': {'evaluations': 1500, 'nodes_multi_path>=3': 100, 'tempbox_cases': 150,
-              'control_id_reuse': 1, 'deep_chain_ok': 5, 'clone_cases': 100, 'edges_checked': 5000},
+              'control_id_reuse': 1, 'deep_chain_ok': 5, 'clone_cases': 100, 'edges_checked': 5000,
+              'dags_with_partial_nodes': 150},
     'thorough': {'evaluations': 1000},
 }
 
@@ -75,6 +77,9 @@ def built_identity_ids(x, out=None, seen=None):
       stack.extend(v.values())
     elif isinstance(v, (list, tuple, set, frozenset)):
       stack.extend(v)
+    elif isinstance(v, functools.partial):
+      stack.extend(v.args)
+      stack.extend(v.keywords.values())
   return out
 
 
@@ -82,7 +87,10 @@ def judge_dag(root, acc, tag='dag'):
   cfg = gen.to_fiddle(root)
   sketch = gen.sketch(root)
   nodes = gen.walk(root)
-  bnodes = [n for n in nodes if isinstance(n, gen.B)]
+  # Partial nodes are built (one functools.partial per instance) but invoke nothing
+  bnodes = [n for n in nodes if isinstance(n, gen.B) and n.btype == 'Config']
+  if any(isinstance(n, gen.B) and n.btype == 'Partial' for n in nodes):
+    acc.obs('dags_with_partial_nodes')
   uids = {gen.uid_of(n): n for n in bnodes if gen.uid_of(n) is not None}
   pc = gen.path_counts(root)
   multi = sum(1 for n in nodes if not isinstance(n, gen.Leaf) and pc[n.uid] >= 3)
@@ -196,8 +204,16 @@ def run_dag(spec, acc):
                     p_share=rng.choice([0.2, 0.4, 0.6]), p_clone=0.15, fns=UID_FNS, lattice=0.0,
                     containers=['list', 'tuple', 'dict', 'point', 'pair', 'defaultdict', 'tempbox'],
                     p_leaf=0.25, leaves=gen.LEAF_POOL + [[], {}])
+    with_partials = rng.random() < 0.3
+    if with_partials:
+      opts.btypes = ['Config', 'Config', 'Partial']
     g = gen.DagGen(rng, opts)
     root = g.dag()
+    if with_partials:
+      # equal-but-distinct Partial instances, also with nothing bound at all
+      for n in gen.walk(root):
+        if isinstance(n, gen.B) and n.btype == 'Partial' and rng.random() < 0.5:
+          n.kw, n.pos, n.tags = {}, [], {}
     if rng.random() < 0.25:
       root = gen.Seq('list', [root, g.child(1), root])
     if opts.p_clone:
